@@ -66,8 +66,11 @@ class Check:
 
     def ok(self, rid, where, desc, sample=None, key=None):
         r = self._r(rid)
+        k = (rid, key if key is not None else (where, desc))
+        if k in self.distinct:
+            return  # same site/case seen in another instantiation or unit: one obligation
         r["instances"] += 1
-        self.distinct.add((rid, key if key is not None else (where, desc)))
+        self.distinct.add(k)
         if len(r["samples"]) < 6:
             r["samples"].append(sample if sample is not None else {"at": where, "what": desc, "verdict": "holds"})
 
